@@ -175,6 +175,11 @@ func (s *Scanner) Length() uint {
 	}
 	var length uint
 	hasValue := false
+
+	// An annotation may stand before the value ("// note\n1"), or without any: the
+	// text has a schema when a value begins outside an annotation.
+	annotations := 0
+	hasExample := false
 	for {
 		lex, ok := s.Next()
 		if !ok {
@@ -187,6 +192,17 @@ func (s *Scanner) Length() uint {
 		}
 		hasValue = true
 
+		switch lex.Type() { //nolint:exhaustive // The other lexemes don't matter.
+		case lexeme.InlineAnnotationBegin, lexeme.MultiLineAnnotationBegin:
+			annotations++
+		case lexeme.InlineAnnotationEnd, lexeme.MultiLineAnnotationEnd:
+			annotations--
+		case lexeme.LiteralBegin, lexeme.ObjectBegin, lexeme.ArrayBegin, lexeme.MixedValueBegin:
+			if annotations == 0 {
+				hasExample = true
+			}
+		}
+
 		if lex.Type() == lexeme.EndTop {
 			// Found character after the end of the schema and spaces.
 			// Example: char "s" in "{} some text"
@@ -198,6 +214,10 @@ func (s *Scanner) Length() uint {
 		if lex.End() == s.dataSize {
 			length--
 		}
+	}
+	if !hasExample {
+		// Nothing but annotations: Check says "Empty schema", so does Len.
+		return 0
 	}
 	for ; length > 0; length-- {
 		c := s.data[length-1]
